@@ -235,7 +235,9 @@ func (l *leader) checkConfigAction(t *task, config Config, status *replicationSt
 }
 
 func (l *leader) canChangeConfig() bool {
-	return l.configs.IsCommitted() && !l.transfer.inProgress()
+	// see https://groups.google.com/forum/#!msg/raft-dev/t4xj6dJTP6E/d2D9LrWRza8J
+	// no config change until leader has committed an entry of its own term
+	return l.configs.IsCommitted() && !l.transfer.inProgress() && l.commitIndex >= l.startIndex
 }
 
 func (l *leader) onWaitForStableConfig(t waitForStableConfig) {
